@@ -23,6 +23,7 @@ REAL_STUB = "real: all yastn code. stub: LRU container in instrumented-cache run
 ASSUMPTIONS = ["group laws of the seven shipped symmetries re-implemented from the documentation (sim/models/group.py)",
                "unexpected exceptions are not C02 matters (no tensor was produced): counted in evidence"]
 CHUNK = 8
+WALL_CAP = 1200
 WEIGHTS = dict(e1.DEFAULT_WEIGHTS)
 WEIGHTS.update({"svd": 2, "factor_recombine": 1, "eigh_gram": 1, "swap_gate": 1, "blocks": 1, "block": 1.5, "flip": 1.5, "linalg_trunc": 1.5})
 
